@@ -109,7 +109,7 @@ func (x *Exec) concModel(sc *Scenario, st *Step) {
 	if rel == "same" {
 		t2 = t1
 	}
-	steps = append(steps, Step{Op: "Concurrent", Recv: -1, A: 3, B: len(opA)*131 + len(opB)*17 + len(rel),
+	steps = append(steps, Step{Op: "Concurrent", Recv: -1, A: 2, B: len(opA)*131 + len(opB)*17 + len(rel),
 		Subs: []Step{concModelOp(opA, t1, "a"), concModelOp(opB, t2, "b"), concModelOp(opB, t1, "c"), concModelOp(opA, t2, "d")}})
 	for k := range steps {
 		x.step = k + 1
